@@ -23,6 +23,7 @@ type FuncVerifier struct {
 	loopSrc    map[*ssa.BasicBlock]string // source text of the loop statement's first line
 	siteLabels map[ssa.Instruction]string
 	fnWrites   []string
+	cover      bool // also emit cover obligations (goal false at every return / loop body entry)
 
 	obls []*Obligation
 	errs []string
@@ -123,11 +124,9 @@ func (fv *FuncVerifier) activeMods() []*ModClause {
 		return nil
 	}
 	var out []*ModClause
-	for _, m := range fv.spec.Modifies {
-		if fv.pass.Active(m.Tags) {
-			out = append(out, m)
-		}
-	}
+	// modifies clauses are always in force (frame assumptions are available to
+	// every property); the obligations they generate belong to C13 and C17
+	out = append(out, fv.spec.Modifies...)
 	return out
 }
 
@@ -140,19 +139,7 @@ func (fv *FuncVerifier) hasModSpec() bool {
 	return false
 }
 
-func (fv *FuncVerifier) modTags() []string {
-	var tags []string
-	seen := map[string]bool{}
-	for _, m := range fv.activeMods() {
-		for _, t := range m.Tags {
-			if !seen[t] {
-				seen[t] = true
-				tags = append(tags, t)
-			}
-		}
-	}
-	return tags
-}
+func (fv *FuncVerifier) modTags() []string { return []string{"C13", "C17"} }
 
 func (fv *FuncVerifier) ghostAllowed(h string) bool {
 	for _, m := range fv.activeMods() {
@@ -522,11 +509,31 @@ func (fv *FuncVerifier) encodeFunction(e *Enc) {
 		e.inSeg[b] = true
 	}
 
+	// global axioms (T9 and property vocabulary)
+	for _, ax := range w.specs.Axioms {
+		if !fv.pass.Active(ax.Tags) {
+			continue
+		}
+		aenv := &Env{e: e, vars: map[string]EV{}, curVer: map[string]int{}, oldVer: map[string]int{}}
+		t, _, err := aenv.elab(ax.E)
+		if err != nil {
+			e.errorf("axiom %s: %v", ax.Name, err)
+			continue
+		}
+		e.assume(t)
+	}
 	// entry state
 	e.declare(q("alloc#0"), w.heapSorts[heapAlloc])
 	penv := fv.paramEnv(e)
-	for _, p := range fn.Params {
+	for i, p := range fn.Params {
 		e.wfValue(e.val(p), p.Type(), "")
+		if i == 0 && fn.Signature.Recv() != nil {
+			if _, isPtr := p.Type().Underlying().(*types.Pointer); isPtr {
+				// implicit contract of every repo method: the receiver is non-nil
+				// (checked at each internal call site, see call.go)
+				e.assume(fmt.Sprintf("(not (= %s nil))", e.val(p)))
+			}
+		}
 	}
 	for _, p := range fn.FreeVars {
 		e.wfValue(e.val(p), p.Type(), "")
@@ -723,6 +730,10 @@ func (fv *FuncVerifier) enterLoop(e *Enc, h *ssa.BasicBlock) {
 				continue
 			}
 			e.assume(fmt.Sprintf("(=> %s %s)", reach, t))
+		}
+		if fv.cover {
+			e.obls = append(e.obls, &Obligation{Name: fmt.Sprintf("cover/loop%d", fv.headerOrd[h]), Fn: funcKey(fv.fn), Kind: "cover", Prefix: len(e.asserts),
+				Reach: reach, Goal: "false", Src: "vacuity guard: the loop header must be reachable with its invariants assumed (expected: NOT unsat)", enc: e})
 		}
 		if ls.Decr != nil && fv.pass.Active(ls.Decr.Tags) {
 			t, _, err := env.elab(ls.Decr.E)
